@@ -53,7 +53,7 @@ def rule_once_conv(ctx):
     ctx.ob("ONCE-HOOK", "the parser calls build() exactly once", len(bcalls) == 1, fn=key, detail="")
     if len(bcalls) == 1:
         at = [models.canon_atom(a) for _, a in atoms_at(body, bcalls[0][0])]
-        ok = any(c[0] == "callres" and c[1] == "std::str::FromStr::from_str" and c[-1] == "Ok?" for c in at)
+        ok = any(c[0] == "callres" and c[1] == "std::str::FromStr::from_str" and c[-1] in ("Ok?", "Ok") for c in at)   # `?` or an explicit match
         ctx.ob("ONCE-HOOK", "the hook (inside build) can only run after the conversion succeeded", ok, fn=key, site=body.site(bcalls[0][0]), detail="")
         a0 = norm(body.resolve_operand(bcalls[0][1]["args"][0]))
         okp = a0[0] == "agg" and a0[2][0][0] == "ok" and a0[2][0][1][0] == "call" and a0[2][0][1][1] == "std::str::FromStr::from_str"
@@ -103,8 +103,14 @@ def rule_err_pass(ctx):
         if r["kind"] == "propagate" and r["callee"] == "std::str::FromStr::from_str":
             n += 1
             t = pb.term(r["bb"])
-            args = t["callee"].get("args", [])
-            ok = len(args) == 2 and args[1] == "std::result::Result<std::convert::Infallible, <T as std::str::FromStr>::Err>" and args[0].endswith("<T as PurlShape>::Error>")
+            if t["t"] == "call" and "callee" in t:
+                args = t["callee"].get("args", [])
+                ok = len(args) == 2 and args[1] == "std::result::Result<std::convert::Infallible, <T as std::str::FromStr>::Err>" and args[0].endswith("<T as PurlShape>::Error>")
+            else:
+                # `Err(e) => return Err(e.into())`: the conversion is the one explicit Into/From call on that error type
+                convs = [tt["callee"].get("args", []) for _, tt in pb.calls() if tt["callee"].get("path") in ("std::convert::Into::into", "std::convert::From::from") and tt["callee"].get("args", [None])[0 if tt["callee"].get("path").endswith("into") else -1] == "<T as std::str::FromStr>::Err"]
+                args = convs
+                ok = len(convs) == 1 and set(convs[0]) == {"<T as std::str::FromStr>::Err", "<T as PurlShape>::Error"}
             ctx.ob("ERR-PASS", "the conversion's error is converted only by the user's own From<<T as FromStr>::Err>", ok, fn=pm["key"], site=r["site"], detail=str(args))
     ctx.ob("ERR-PASS", "one propagation site for the conversion's error", n == 1, fn=pm["key"], detail="")
     # trait bound: Error: From<ParseError>; the parser's where clause requires From<<T as FromStr>::Err>
